@@ -245,19 +245,7 @@ func runC04(c *eng.Ctx) {
 			c.Before("ORDER-commit", "derived-index-dropped-before-reload", fn, drop, loads, "the leveldb needle map derived from the old index is removed before the volume is reloaded from the swapped files")
 		}
 	}
-	for _, name := range []string{"(*Volume).Compact", "(*Volume).Compact2"} {
-		fn := c.NeedFunc("weed/storage", name)
-		if fn == nil {
-			continue
-		}
-		copyCall := eng.Find(fn, eng.PlainCallTo("storage.Volume).copyDataAndGenerateIndexFile", "weed/storage.copyDataBasedOnIndexFile"))
-		if len(copyCall) == 0 {
-			c.Undecided("ORDER-commit", eng.FuncName(fn), fn.Pos(), "copy call not found")
-			continue
-		}
-		c.Before("ORDER-commit", "snapshot-index-offset", fn, eng.StoreToField("Volume.lastCompactIndexOffset"), copyCall, "the index size at the start of the compaction is recorded before the copy starts")
-		c.Before("ORDER-commit", "snapshot-revision", fn, eng.StoreToField("Volume.lastCompactRevision"), copyCall, "the compaction revision at the start is recorded before the copy starts")
-	}
+	snapshotBeforeCopy(c, "ORDER-commit")
 	if fn := c.NeedFunc("weed/storage", "(*Volume).makeupDiff"); fn != nil {
 		revEq := eng.Cmp(func(v ssa.Value) bool { return eng.MentionsCall(v, "weed/storage.fetchCompactRevisionFromDatFile") }, func(v ssa.Value) bool { return eng.IsField(v, "Volume.lastCompactRevision") }, token.EQL)
 		returnsNonNilErr(c, "ORDER-commit", "revision-mismatch-aborts", fn, startsOf(eng.FailEdges(fn, revEq)), "a data file that was compacted by someone else meanwhile aborts the commit")
@@ -416,4 +404,23 @@ func newestEntryWins(c *eng.Ctx, rule string, fn *ssa.Function) {
 		c.Ob(rule, eng.FuncName(fn)+" newest-entry-wins", okNewest, fn.Pos(), fmt.Sprintf("the newest change of a key made during the compaction wins (walk: %s; recorded only for unseen keys: %v)", dir, guarded))
 	}
 
+}
+
+// snapshotBeforeCopy: the index size and revision a compaction starts from are recorded before the copy starts; the
+// commit replays exactly the index entries behind that snapshot, so a snapshot taken later loses the writes and deletes
+// that arrive while the copy runs.
+func snapshotBeforeCopy(c *eng.Ctx, rule string) {
+	for _, name := range []string{"(*Volume).Compact", "(*Volume).Compact2"} {
+		fn := c.NeedFunc("weed/storage", name)
+		if fn == nil {
+			continue
+		}
+		copyCall := eng.Find(fn, eng.PlainCallTo("storage.Volume).copyDataAndGenerateIndexFile", "weed/storage.copyDataBasedOnIndexFile"))
+		if len(copyCall) == 0 {
+			c.Undecided(rule, eng.FuncName(fn), fn.Pos(), "copy call not found")
+			continue
+		}
+		c.Before(rule, "snapshot-index-offset", fn, eng.StoreToField("Volume.lastCompactIndexOffset"), copyCall, "the index size at the start of the compaction is recorded before the copy starts")
+		c.Before(rule, "snapshot-revision", fn, eng.StoreToField("Volume.lastCompactRevision"), copyCall, "the compaction revision at the start is recorded before the copy starts")
+	}
 }
